@@ -94,6 +94,93 @@ def check_shallow_hooks(ctx: Check, tree: Tree, hook_names: list[str], need_comp
         ctx.ok("R-SHALLOW", where, f"{what}: shallow source {unparse(shallow[0][0]['node'])[:70]} in {shallow[0][1].qual}")
 
 
+def check_precedence(ctx: Check, tree: Tree, prefixes: tuple[str, ...]) -> int:
+    """R-PREC over the printer methods of the given modules."""
+    from ..rules import precedence_hazards, printer_methods
+
+    n = 0
+    for fn in sorted(printer_methods(tree), key=lambda f: f.qual):
+        if not fn.qual.startswith(prefixes):
+            continue
+        n += 1
+        hz = precedence_hazards(tree, fn)
+        if hz:
+            hole, why = hz[0]
+            ctx.violation("R-PREC", f"{fn.qual}::precedence::{unparse(hole)}", tree.loc(hole), f"{fn.qual}: {why}",
+                          "printer._print returns e.g. `a + b` for a sum without parentheses: `-{x}` / `{x}**2` / `{x} * c` then bind to the last term only, "
+                          "so the generated code of the folded form computes something else than the unfolded expression for compound arguments")
+        else:
+            ctx.ok("R-PREC", tree.loc(fn.node), f"{fn.qual}: no printed sub-expression sits unparenthesised next to a tighter-binding operator")
+    return n
+
+
+def check_descent(ctx: Check, tree: Tree) -> None:
+    """R-DESCEND: the substitution hooks visit every argument whenever the rule is non-empty.
+
+    They re-implement Basic._subs / Basic._xreplace for classes with non-SymPy fields.  A
+    replacement key may be ANY sub-expression, so whether an argument has to be visited
+    cannot be decided from the free symbols of the expression: the only admissible
+    conditions around the argument loop are tests of the rule itself."""
+    hooks = installed_hooks(tree)
+    for attr, param_idx in (("_xreplace", 1), ("_eval_subs", 1)):
+        if attr not in hooks:
+            continue
+        _, _, resolved = hooks[attr]
+        fn = tree.funcs.get(resolved or "")
+        if fn is None:
+            continue
+        rule_params = set(fn.params[1:])
+        loops = [n for n in walk_function(fn.node, nested=False) if isinstance(n, ast.For)]
+        arg_loops = []
+        from ..dataflow import RD
+
+        rd = RD(fn.node)
+        for loop in loops:
+            srcs = [unparse(loop.iter)] + [unparse(d.value) for d in rd.closure(rd.uses(loop.iter)) if d.value is not None]
+            if any("_get_arguments(self)" in t or "self.args" in t for t in srcs):
+                arg_loops.append(loop)
+        if not arg_loops:
+            raise AnalysisError(f"{fn.qual}: no loop over the instance's arguments found")
+        loop = arg_loops[0]
+        from ..loader import ancestors
+
+        bad, unknown = [], []
+        for anc in ancestors(loop):
+            if anc is fn.node:
+                break
+            if not isinstance(anc, ast.If):
+                continue
+            conj = anc.test.values if isinstance(anc.test, ast.BoolOp) and isinstance(anc.test.op, ast.And) else [anc.test]
+            for t in conj:
+                txt = unparse(t)
+                if isinstance(t, ast.Name) and t.id in rule_params:
+                    continue
+                if isinstance(t, ast.Call) and unparse(t.func) == "isinstance" and t.args and unparse(t.args[0]) in rule_params:
+                    continue
+                if isinstance(t, ast.Compare) and "self" in txt and any(p in txt for p in rule_params) and isinstance(t.ops[0], (ast.In, ast.NotIn)):
+                    continue
+                # anything else: a pre-filter - look at what it consults
+                consulted = txt
+                for c in ast.walk(t):
+                    if isinstance(c, ast.Call):
+                        callee = tree.callee(c, fn)
+                        if callee in tree.funcs:
+                            consulted += " " + unparse(tree.funcs[callee].node)
+                if "free_symbols" in consulted or ".atoms(" in consulted:
+                    bad.append(txt)
+                else:
+                    unknown.append(txt)
+        key = f"{fn.qual}::descends-into-all-arguments"
+        if bad:
+            ctx.violation("R-DESCEND", key, tree.loc(loop), f"{fn.qual}: the argument loop is guarded by `{bad[0][:60]}`, which decides from free symbols whether anything can be replaced",
+                          "xreplace/subs keys may be arbitrary sub-expressions (or non-SymPy attribute values), not only free symbols: such replacements are silently skipped inside these classes, so replace-then-unfold differs from unfold-then-replace")
+        elif unknown:
+            raise AnalysisError(f"{fn.qual}: argument loop guarded by `{unknown[0][:60]}` - cannot decide whether every argument is still visited")
+        else:
+            filtered = [n for n in walk_function(loop) if isinstance(n, (ast.Break,))]
+            ctx.verdict(not filtered, "R-DESCEND", key, tree.loc(loop), f"{fn.qual}: every argument is visited whenever the rule is non-empty (loop guarded by tests of the rule only)")
+
+
 def count_nested_constructions(tree: Tree) -> list[str]:
     classes = set(expression_classes(tree)) | set(handwritten_expr_classes(tree))
     out = []
@@ -112,6 +199,8 @@ def count_nested_constructions(tree: Tree) -> list[str]:
 def run(ctx: Check, tree: Tree) -> None:
     ctx.decided += [
         "reconstruction hooks (_eval_subs, _xreplace) installed by @unevaluated read arguments shallowly and completely (R-SHALLOW/R-COMPLETE)",
+        "the substitution hooks visit every argument whenever the rule is non-empty; no pre-filter by free symbols (R-DESCEND)",
+        "generated-code templates never put an unparenthesised printed sub-expression next to a tighter-binding operator (R-PREC)",
         "every `... = self.args` unpacking matches the class's SymPy field list in count and position (R-ARITY)",
         "_hashable_content hook is installed unconditionally and covers the non-SymPy fields (R-HASH)",
         "_eval_subs/_xreplace hooks are installed whenever a class has non-SymPy fields (R-HOOKS)",
@@ -140,7 +229,7 @@ def run(ctx: Check, tree: Tree) -> None:
     ctx.info("R-SHALLOW", nested[0].split()[0], f"{len(nested)} nested expression-class constructions, e.g. {nested[0]}")
 
     # ---- R-SHALLOW on the substitution hooks
-    check_shallow_hooks(ctx, tree, ["_eval_subs", "_xreplace"], need_complete=True)
+    ctx.section(check_shallow_hooks, ctx, tree, ["_eval_subs", "_xreplace"], need_complete=True)
 
     # ---- hooks installed under the right condition
     hooks = installed_hooks(tree)
@@ -229,6 +318,9 @@ def run(ctx: Check, tree: Tree) -> None:
             else:
                 ctx.ok("R-HOOKS", tree.loc(value), f"cls.{attr} installed unconditionally")
 
+    ctx.section(check_descent, ctx, tree)
+    ctx.section(check_precedence, ctx, tree, prefixes=("ampform",))
+
     # ---- R-ARITY
     n_unpack = 0
     for q, cls in classes.items():
@@ -249,7 +341,7 @@ def run(ctx: Check, tree: Tree) -> None:
         raise AnalysisError(f"only {n_unpack} `= self.args` unpack sites found (confirmed {MIN_UNPACK}+)")
 
     # ---- self.<attr> inside methods of decorated classes must exist (field, method, class attr)
-    check_field_access(ctx, tree, classes)
+    ctx.section(check_field_access, ctx, tree, classes)
 
     # ---- R-ONEDEF
     n_onedef = 0
